@@ -307,7 +307,16 @@ Values(e, t, fuel) ==
                            ELSE [base EXCEPT ![ms[i].n] = Absent]
              hot(i) == [j \in 1..Max2(0, Len(vs(i)) - 1) |-> [base EXCEPT ![ms[i].n] = Present(vs(i)[j + 1])]]
                        \o (IF ms[i].q # "M" \/ i > Len(t.root) THEN <<without(i)>> ELSE <<>>)
-         IN <<base>> \o Concat([i \in 1..Len(ms) |-> hot(i)])
+             \* two more corners: every member at its last value; every non-mandatory member absent
+             lastv(i) == IF vs(i) = <<>> THEN Absent ELSE Present(vs(i)[Len(vs(i))])
+             allLast == [nm \in names |-> lastv(MemberIndex(ms, nm))]
+             allAbsent == [nm \in names |-> LET i == MemberIndex(ms, nm) IN
+                              IF ms[i].q # "M" \/ i > Len(t.root) THEN Absent ELSE base[nm]]
+             secondv(i) == IF Len(vs(i)) >= 2 THEN Present(vs(i)[2]) ELSE first(i)
+             mandSecond == [nm \in names |-> LET i == MemberIndex(ms, nm) IN
+                              IF ms[i].q # "M" \/ i > Len(t.root) THEN (IF i > Len(t.root) /\ ms[i].q = "M" THEN secondv(i) ELSE Absent)
+                              ELSE secondv(i)]
+         IN <<base, allLast, allAbsent, mandSecond>> \o Concat([i \in 1..Len(ms) |-> hot(i)])
     [] t.k = "CHOICE" ->
          LET alts == AllAlts(t)
              allvs == Force([i \in 1..Len(alts) |-> IF fuel = 0 /\ i > 1 THEN <<>>
@@ -420,7 +429,7 @@ Spec == Init /\ [][Next]_vars
 ------------------------------------------------------------------------------
 (* emission of behaviours for binding A                                     *)
 
-MaxVals == 14
+MaxVals == 16
 Case == [env |-> [tagdef |-> gEnv.tagdef, extimp |-> gEnv.extimp,
                   types |-> [x \in DOMAIN gEnv.types \cup {"Top"} |-> IF x = "Top" THEN gT ELSE gEnv.types[x]]],
          top |-> "Top", depth |-> gDepth,
